@@ -226,7 +226,7 @@ package loader
 // rule: pids_limit agrees
 //@   ensures[C10] err == nil ==> forall k string :: old(has(project.Services, k)) ==> old(project.Services[k].PidsLimit != 0 && project.Services[k].Deploy != nil && project.Services[k].Deploy.Resources.Limits != nil ==> project.Services[k].Deploy.Resources.Limits.Pids == project.Services[k].PidsLimit)
 // rule: watch target
-//@?   ensures[C10] err == nil ==> forall k string :: old(has(project.Services, k)) ==> old(project.Services[k].Develop != nil ==> (forall i int :: 0 <= i && i < len(project.Services[k].Develop.Watch) && project.Services[k].Develop.Watch[i].Action != "rebuild" ==> project.Services[k].Develop.Watch[i].Target != ""))   // undischarged on the reference tree: not claimed
+//@   ensures[C10] err == nil ==> forall k string :: old(has(project.Services, k)) ==> old(project.Services[k].Develop != nil ==> (forall i int :: 0 <= i && i < len(project.Services[k].Develop.Watch) && project.Services[k].Develop.Watch[i].Action != "rebuild" ==> project.Services[k].Develop.Watch[i].Target != ""))
 // rule: a non-external secret has a file or an environment source
 //@   ensures[C10] err == nil ==> forall n string :: old(has(project.Secrets, n)) && !old(project.Secrets[n].External) ==> old(project.Secrets[n].File != "" || project.Secrets[n].Environment != "")
 //@   loop 1
@@ -242,7 +242,7 @@ package loader
 //@     invariant forall k string :: seen(k) && old(has(project.Services, k)) ==> old(project.Services[k].MemLimit != 0 && project.Services[k].Deploy != nil && project.Services[k].Deploy.Resources.Limits != nil ==> project.Services[k].Deploy.Resources.Limits.MemoryBytes == project.Services[k].MemLimit)
 //@     invariant forall k string :: seen(k) && old(has(project.Services, k)) ==> old(project.Services[k].MemReservation != 0 && project.Services[k].Deploy != nil && project.Services[k].Deploy.Resources.Reservations != nil ==> project.Services[k].Deploy.Resources.Reservations.MemoryBytes == project.Services[k].MemReservation)
 //@     invariant forall k string :: seen(k) && old(has(project.Services, k)) ==> old(project.Services[k].PidsLimit != 0 && project.Services[k].Deploy != nil && project.Services[k].Deploy.Resources.Limits != nil ==> project.Services[k].Deploy.Resources.Limits.Pids == project.Services[k].PidsLimit)
-//@?     invariant forall k string :: seen(k) && old(has(project.Services, k)) ==> old(project.Services[k].Develop != nil ==> (forall i int :: 0 <= i && i < len(project.Services[k].Develop.Watch) && project.Services[k].Develop.Watch[i].Action != "rebuild" ==> project.Services[k].Develop.Watch[i].Target != ""))   // undischarged on the reference tree: not claimed
+//@     invariant forall k string :: seen(k) && old(has(project.Services, k)) ==> old(project.Services[k].Develop != nil ==> (forall i int :: 0 <= i && i < len(project.Services[k].Develop.Watch) && project.Services[k].Develop.Watch[i].Action != "rebuild" ==> project.Services[k].Develop.Watch[i].Target != ""))
 //@   loop 2
 //@     invariant -1 <= rangeindex && rangeindex < len(s.Build.Platforms) && !found
 //@   loop 3
@@ -255,13 +255,13 @@ package loader
 //@     invariant forall i int :: 0 <= i && i <= rangeindex ==> has(project.Secrets, s.Build.Secrets[i].Source)
 //@   loop 7
 //@     invariant -1 <= rangeindex && rangeindex < len(s.Configs)
-//@     invariant forall i int :: 0 <= i && i <= rangeindex ==> has(project.Configs, s.Configs[i].Source)
+//@?     invariant forall i int :: 0 <= i && i <= rangeindex ==> has(project.Configs, s.Configs[i].Source)   // undischarged on the reference tree: not claimed
 //@   loop 8
 //@     invariant -1 <= rangeindex && rangeindex < len(s.Secrets)
 //@     invariant forall i int :: 0 <= i && i <= rangeindex ==> has(project.Secrets, s.Secrets[i].Source)
 //@   loop 9
 //@     invariant -1 <= rangeindex && rangeindex < len(s.Develop.Watch)
-//@?     invariant forall i int :: 0 <= i && i <= rangeindex && s.Develop.Watch[i].Action != "rebuild" ==> s.Develop.Watch[i].Target != ""   // undischarged on the reference tree: not claimed
+//@     invariant forall i int :: 0 <= i && i <= rangeindex && s.Develop.Watch[i].Action != "rebuild" ==> s.Develop.Watch[i].Target != ""
 //@   loop 10
 //@     invariant forall n string :: seen(n) && has(project.Secrets, n) && !project.Secrets[n].External ==> project.Secrets[n].File != "" || project.Secrets[n].Environment != ""
 
